@@ -3,6 +3,7 @@
    the IMPLEMENTATION stored (file order), independently of the model's book-keeping. *)
 From Coq Require Import List NArith ZArith Bool QArith Qcanon.
 From Okv Require Import Base.Maps Base.Dec Model.Amount Model.Book Run.LedgerCase.
+From Okv Require Model.BookSpecB.
 Import ListNotations.
 
 Record case := { c_entries : list entry; c_obs : lobs }.
@@ -20,15 +21,10 @@ Definition holds (expected : posting_amount) (cur : amount) : bool :=
   | PSingle c v => qc_eqb (a_get cur c) v
   end.
 
-(* is there an omitted-amount posting on account a among the first i postings? *)
-Fixpoint omitted_before (a : aid) (i : nat) (ps : list posting) : bool :=
-  match ps, i with
-  | [], _ => false
-  | _, O => false
-  | p :: r, S k =>
-      ((p_account p =? a)%N && match p_amount p, p_balance p with None, None => true | _, _ => false end)
-      || omitted_before a k r
-  end.
+(* is there an omitted-amount posting on account a among the first i postings?  The same
+   executable predicate as in the carve-out of C02_assertions_hold_outside_K1
+   (BookSpecB.known_class t i = omitted_before (account of posting i) i (t_posts t)). *)
+Definition omitted_before : aid -> nat -> list posting -> bool := Okv.Model.BookSpecB.omitted_before.
 
 (* walk one transaction: returns (running', ok, known) *)
 Fixpoint walk_posts (all : list posting) (i : nat) (ps : list posting) (os : list oposting)
